@@ -179,6 +179,22 @@ def grid(quick):
                                                                ("sqrt_inv_matmul", "batched")]
         for fn, kind in fns:
             cells.append(_cell("F", "special", None, True, [2], fn, kind, "rot", chol_mode(fn), special=s))
+    # ---- H: right-hand sides / left-hand sides whose batch shape is broadcast against a two-dimensional operator batch in
+    # every way (interior / leading singleton, fewer dimensions, fewer dimensions + singleton): the gradient has to be
+    # summed back over exactly the broadcast dimensions
+    hroots = ["Dense", "Toeplitz", "Sum", "Matmul", "ConstantMul", "Diag", "Kron", "BlockDiag", "Interpolated", "BatchRepeat",
+              "Masked", "Triangular"]
+    hkinds = [("matmul", "inner1"), ("matmul", "lead1"), ("matmul", "mid1"), ("matmul", "smaller"), ("rmatmul", "inner1"),
+              ("rmatmul", "mid1"), ("rmatmul", "lead1")]
+    for ri, root in enumerate(hroots):
+        ks = [hkinds[(ri + j * 3) % len(hkinds)] for j in range(2)] + [("matmul", "inner1")] if quick else hkinds
+        seen_k = set()
+        for fn, kind in ks:
+            if (fn, kind) in seen_k:
+                continue
+            seen_k.add((fn, kind))
+            cells.append(_cell("H", root, (rot(LEAF_CHILDREN) if _takes_child(root) else None), False, [2, 3], fn, kind,
+                               "all" if quick else "rot", "no", m=2))
     # ---- G: witnesses of the pinned tree's defects (dedicated cells; the seed only picks values)
     for s in G_SPECIALS:
         kinds = {"toeplitz_mid1": [("matmul", "batched"), ("matmul", "bcast3")],
